@@ -25,14 +25,28 @@ def setter(T, f, fn, field, kind):
         ensures %s, %s, *final(r) == *final(self),
 //@endfn
 ''' % (f, T, fn, post, frame)
+def getter(T, f, field):
+    if ty(field) == 'StringValue':
+        post = "r@ == sv_str(&self.v_%s())" % field
+    else:
+        post = "*r == uv_num(&self.v_%s())" % field
+    return '''//@fn src/structs/%s.rs | impl %s | get_%s | ret=r
+//@spec
+        ensures %s,
+//@endfn
+''' % (f, T, field, post)
 body = hdr
 body += "impl SheetProtection {\n" + accessors('SheetProtection')
 for fn, field, kind in [('set_algorithm_name','algorithm_name','s'),('set_hash_value','hash_value','s'),('set_salt_value','salt_value','s'),('set_spin_count','spin_count','u'),('remove_password_raw','password','r')]:
     body += setter('SheetProtection','sheet_protection',fn,field,kind)
+for field in ['algorithm_name','hash_value','salt_value','spin_count']:
+    body += getter('SheetProtection','sheet_protection',field)
 body += "}\nimpl WorkbookProtection {\n" + accessors('WorkbookProtection')
 for p in ('workbook','revisions'):
     for fn, field, kind in [('set_%s_algorithm_name'%p,'%s_algorithm_name'%p,'s'),('set_%s_hash_value'%p,'%s_hash_value'%p,'s'),('set_%s_salt_value'%p,'%s_salt_value'%p,'s'),('set_%s_spin_count'%p,'%s_spin_count'%p,'u'),('remove_%s_password_raw'%p,'%s_password'%p,'r')]:
         body += setter('WorkbookProtection','workbook_protection',fn,field,kind)
+    for field in ['%s_algorithm_name'%p,'%s_hash_value'%p,'%s_salt_value'%p,'%s_spin_count'%p]:
+        body += getter('WorkbookProtection','workbook_protection',field)
 body += "}\n"
 def enc(fnname, T, param, pre):
     g = lambda x: "v_%s%s()" % (pre, x)
